@@ -534,10 +534,12 @@ fn judge_out_of_range(ctx: &mut Ctx, name: &str, r: Result<Value, ()>, want: f64
     }
 }
 
-pub fn run(ctx: &mut Ctx) {
+pub fn run(ctx: &mut Ctx, args: &[String]) {
     ctx.start_watchdog(120);
+    // `--miri-sample`: 60 generated data through all views and conversions, nothing else
+    let miri_sample = args.iter().any(|a| a == "--miri-sample");
     // (A)+(B): data
-    let n = ctx.scale(100_000u64, 2_000_000u64);
+    let n = if miri_sample { 60 } else { ctx.scale(100_000u64, 2_000_000u64) };
     let rng = ctx.rng("c12-data");
     // fixed edge data first
     let fixed = vec![
@@ -557,6 +559,9 @@ pub fn run(ctx: &mut Ctx) {
         }
         ctx.set_progress(&v.dump());
         check_datum(ctx, &v);
+    }
+    if miri_sample {
+        return;
     }
     // (C): derive vs serde, every instance from small field pools
     let p = parser(Config::Stdlib);
